@@ -1,5 +1,6 @@
 import MicroHttp.Props.C14
 import MicroHttp.Props.C01
+import MicroHttp.Props.Tables
 #print axioms MicroHttp.C14.oneshot_sound
 #print axioms MicroHttp.C14.conn_complete
 #print axioms MicroHttp.C14.get_with_body_rejected
@@ -7,3 +8,4 @@ import MicroHttp.Props.C01
 #print axioms MicroHttp.C14.max_irrelevant
 #print axioms MicroHttp.C01.tryRead_refines
 #print axioms MicroHttp.C01.sched_refines
+#print axioms MicroHttp.Tables.no_shared_state
